@@ -386,8 +386,10 @@ def start_objects(rng, theme):
     elif theme == "terms":
         new += [["new", rng.choice(["Field", "Tuple", "BasicCriterion", "ComplexCriterion", "ContainsCriterion",
                                     "BetweenCriterion", "NullCriterion", "BitwiseAndCriterion", "ArithmeticExpression",
-                                    "Not", "ExistsCriterion", "ValueWrapper", "Function", "Rollup", "Array"])]
+                                    "Not", "ExistsCriterion", "ValueWrapper", "Function", "Rollup", "Array", "TupleIn", "Bracket",
+                                    "Negative"])]
                 for _ in range(rng.randint(1, 3))]
+        new = [["new", "Table:t1"], ["new", "Table:t2"]] + [x for x in new if x[1] not in ("Table:t1", "Table:t2")]
     elif theme == "mixed":
         new += [["new", q()], ["new", "Case"], ["new", rng.choice(["fn.Sum", "an.Sum"])], ["new", "CreateQueryBuilder"]]
     elif theme == "twin":
